@@ -25,26 +25,6 @@ struct PPModel {
   double c(int s, int k, int d) const { return rows[(size_t)s * ncoef + k][d]; }
 };
 
-inline uint32_t mix32(uint32_t x) {
-  x ^= x >> 16; x *= 0x7feb352dU; x ^= x >> 15; x *= 0x846ca68bU; x ^= x >> 16; return x;
-}
-
-// one coefficient value from a word: 0 -> 0, small words -> small integers / simple fractions
-inline double coef_from_word(uint32_t w) {
-  if (w == 0) return 0.0;
-  int cls = (int)(w % 5u);
-  uint32_t r = w / 5u;
-  int k = (int)(r % 1281u) - 640;     // [-640, 640]
-  uint32_t r2 = r / 1281u;
-  switch (cls) {
-    case 0: return (double)((int)(w % 17u) - 8);           // small integer
-    case 1: return k / 64.0;
-    case 2: return k / 64.0 * pow10i((int)(r2 % 8u) - 3);  // 1e-3 .. 1e4
-    case 3: return k == 0 ? 1.0 : (double)k * pow2i((int)(r2 % 41u) - 20);
-    default: return (r2 % 7u == 0) ? 0.0 : k / 64.0 * pow10i((int)(r2 % 13u) - 6);
-  }
-}
-
 // breakpoints: strictly increasing; gaps from {1 ulp, 2 ulp, 2^-20, O(1), large}
 inline std::vector<double> gen_breakpoints(Tape& t, int nseg, std::string* desc = nullptr) {
   std::vector<double> b(nseg + 1);
